@@ -22,6 +22,9 @@ import (
 var verifOther = errors.New("verif: other error")
 
 func verifDerr(class int64) error {
+	if e := breaker.VerifWrapped(class); e != nil {
+		return e
+	}
 	switch class {
 	case breaker.VDNil:
 		return nil
